@@ -142,21 +142,49 @@ class VLoop(asyncio.SelectorEventLoop):
 
 
 class UvTicker:
-    """Counts loop iterations on a loop that cannot be subclassed (uvloop)."""
+    """Counts loop iterations on a loop that cannot be subclassed (uvloop) and detects a
+    stuck program logically: no harness activity for ``stuck_ticks`` iterations of a
+    timer-free program means nothing can ever fire again (DESIGN.md 2.2)."""
 
-    def __init__(self, loop: asyncio.AbstractEventLoop) -> None:
+    def __init__(self, loop: asyncio.AbstractEventLoop, stuck_ticks: int | None = None) -> None:
         self.loop = loop
         self.cycles = 0
         self.running = True
+        self.stuck_ticks = stuck_ticks
+        self.last_activity = 0
+        self.abort_hooks: list[Callable[[str], None]] = []
+        self.aborted: str | None = None
+        self.main_task: asyncio.Task | None = None
         loop.call_soon(self._tick)
+
+    def activity(self) -> None:
+        self.last_activity = self.cycles
 
     def _tick(self) -> None:
         self.cycles += 1
-        if self.running:
-            self.loop.call_soon(self._tick)
+        if not self.running:
+            return
+
+        if (
+            self.stuck_ticks is not None
+            and self.aborted is None
+            and self.cycles - self.last_activity > self.stuck_ticks
+        ):
+            self.aborted = "deadlock"
+            for hook in self.abort_hooks:
+                hook("deadlock")
+
+            if self.main_task is not None:
+                self.main_task.cancel()
+
+        self.loop.call_soon(self._tick)
 
     def stop(self) -> None:
         self.running = False
+
+
+def ticker_of(loop: asyncio.AbstractEventLoop) -> "UvTicker | None":
+    return _tickers.get(id(loop))
 
 
 def cycles_now() -> int:
@@ -212,11 +240,13 @@ def run(
                     except BaseException:
                         pass
     elif config == "uvloop":
+        state: dict = {}
 
         async def wrapper() -> Any:
             loop = asyncio.get_running_loop()
-            ticker = UvTicker(loop)
+            ticker = UvTicker(loop, stuck_ticks=(info or {}).get("stuck_ticks"))
             _tickers[id(loop)] = ticker
+            state["ticker"] = ticker
             errors: list[dict] = []
 
             def handler(loop_: Any, context: dict) -> None:
@@ -231,7 +261,8 @@ def run(
 
             loop.set_exception_handler(handler)
             try:
-                return await main(*args)
+                ticker.main_task = loop.create_task(main(*args))
+                return await ticker.main_task
             finally:
                 ticker.stop()
                 _tickers.pop(id(loop), None)
@@ -240,7 +271,13 @@ def run(
                     info["vtime"] = None
                     info["callback_errors"] = errors
 
-        return anyio.run(wrapper, backend_options={"use_uvloop": True})
+        try:
+            return anyio.run(wrapper, backend_options={"use_uvloop": True})
+        except asyncio.CancelledError:
+            if state.get("ticker") is not None and state["ticker"].aborted:
+                raise Deadlock("no activity on uvloop (logical stuck rule)") from None
+
+            raise
     elif config == "real":
         return anyio.run(main, *args)
     elif config == "real_eager":
